@@ -16,6 +16,7 @@ def dispatch (s : Sexp) : Sexp :=
       else if cmd == "xpath" then handleXPath args
       else if cmd == "cid-pre" then handleCidPre args
       else if cmd == "cid-eq" then handleCidEq args
+      else if cmd == "node-eq" then handleNodeEq args
       else none
     match r with
     | some x => x
